@@ -293,6 +293,44 @@ RouteCalls(rt, cd, n) ==
     (* other origins: messages emitted by the migrate, sudo and instantiate entry points *)
     \cup { ExecuteCall("u1", << Migrate(A, 2) >>), ExecuteCall("u1", << Migrate(A, 3) >>), SudoWasm(A, "sudo"), SudoWasm(E, "wasm_sudo"),
            ExecuteCall("u1", << Inst(1, "Lr", "", <<>>, "") >>), ExecuteCall("u1", << Inst(3, "Lr", "", <<>>, "") >>) }
+(* ====================================================================== *)
+(* stake: staking and distribution messages with their real semantics, sent by users and by
+   contracts (C02: rolled back with a failing sibling; C10: visible to queries; C14/C15 in
+   composition with wasm and bank; C17: the nested bank transfer goes through the router) *)
+Stake(op, v, n) == [k |-> "stake", op |-> op, v |-> v, v2 |-> "", coin |-> <<"eth", n>>]
+StakeDen(op, v, den, n) == [k |-> "stake", op |-> op, v |-> v, v2 |-> "", coin |-> <<den, n>>]
+Redel(v, v2, n) == [k |-> "stake", op |-> "redelegate", v |-> v, v2 |-> v2, coin |-> <<"eth", n>>]
+Withdraw(v) == [k |-> "distr", op |-> "withdraw", v |-> v, to |-> ""]
+SetW(to) == [k |-> "distr", op |-> "set_withdraw", v |-> "", to |-> to]
+Advance(dt) == [k |-> "advance", dt |-> dt]
+ModsStake == [s \in Slots |-> IF s \in {"staking", "distribution"} THEN "real" ELSE "fail"]
+GenesisStake ==
+    << [call |-> [k |-> "store_code", creator |-> "u1", flavour |-> 1], sc |-> <<>>],
+       [call |-> [k |-> "store_code", creator |-> "u1", flavour |-> 2], sc |-> <<>>],
+       [call |-> SudoMint("u1", Eth(7)), sc |-> <<>>],
+       [call |-> ExecuteCall("u1", << Inst(1, "L1", "u1", <<>>, "") >>), sc |-> <<B0>>],
+       [call |-> ExecuteCall("u1", << Inst(2, "L2", "", <<>>, "") >>), sc |-> <<B0>>],
+       [call |-> ExecuteCall("u1", << Send(A, 3) >>), sc |-> <<>>],
+       [call |-> ExecuteCall("u1", << Stake("delegate", "v1", 1) >>), sc |-> <<>>] >>
+StakeSubMsgs ==
+    {Stake("delegate", "v1", 2), Stake("undelegate", "v1", 1), Withdraw("v1"), Stake("delegate", "v1", 9)}
+    \cup (IF Level > 1 THEN {Stake("delegate", "v2", 1), Redel("v1", "v2", 1), SetW("u2"), Stake("delegate", "vx", 1)} ELSE {})
+StakeMenu(info, fuel, cu) ==
+    IF info.entry = "reply" THEN {W(info), BFail}
+    ELSE {W(info)}
+         \cup (IF fuel > 1 /\ info.c = A
+               THEN {WSub(info, <<Sub(m, 1, "", on)>>) : m \in StakeSubMsgs, on \in Ons}
+                    \cup {WSub(info, <<Sub(m, 1, "", "never"), Sub(Send("u2", 9), 2, "", on2)>>) :
+                             m \in StakeSubMsgs, on2 \in {"never", "error"}}
+               ELSE {})
+StakeCalls(rt, cd, n) ==
+    { ExecuteCall("u1", <<m>>) :
+        m \in {Stake("delegate", "v1", 2), Stake("delegate", "v2", 1), Stake("delegate", "vx", 1), Stake("delegate", "v1", 0),
+               StakeDen("delegate", "v1", "btc", 1), Stake("delegate", "v1", 9),
+               Stake("undelegate", "v1", 1), Stake("undelegate", "v1", 5), StakeDen("undelegate", "v1", "btc", 1),
+               Redel("v1", "v2", 1), Redel("v1", "vx", 1), Withdraw("v1"), Withdraw("vx"), SetW("u2"), SetW("bad")} }
+    \cup (IF Level > 1 THEN { ExecuteCall("u1", <<m>>) : m \in {Redel("v2", "v1", 0), SetW("u1"), Withdraw("v2"), Stake("undelegate", "v2", 1)} } ELSE {})
+    \cup { ExecuteCall("u1", << Exec(A, <<>>) >>), [k |-> "next_block"], Advance(10) }
 ModsAcceptAll == ModsFor(Slots)
 ModsMixed == ModsFor({"custom", "ibc", "any"})
 =============================================================================
